@@ -474,6 +474,11 @@ func Run(c *ev.Ctx) {
 	st.Report(c, "")
 	c.Set("alphabet_size", len(alpha))
 	c.Set("import_ops", nImport)
+	var an []string
+	for _, o := range alpha {
+		an = append(an, o.Name)
+	}
+	c.Sample(map[string]any{"alphabet": an})
 	c.Set("seeds", len(seeds))
 	c.Set("rule", "every sequence (<= max_depth, from every seed incl. name-colliding local and other-peer rows) of exported-service updates (11 snapshot shapes per peer and service: none, instance with service/node checks, status changes, instance moved between nodes, two nodes, two instances on a node, port change, node address change), exported-service-list updates and exported-services config changes; each import is handled by the real peerstream processResponse/handleUpdateService with FSM.Apply as raft")
 	var _ = acl.DefaultPartitionName
